@@ -104,6 +104,16 @@ func checkMethodFacts(c MethodCase) (*Violation, methodFacts) {
 		}
 		return violf("%s: the documented domain/range rules give class %s%s and items %v, Query returned %s", at, wantClass, why, mRenderSeq(mr.Items), got), f
 	}
+	// "reject ... with a suppressible error": WithSilent must swallow exactly those
+	silent := RunQuery(context.Background(), p, nil, exec.WithVars(exec.Vars(vars)), exec.WithTZ(), exec.WithSilent())
+	switch {
+	case silent.Panic != "":
+		return violf("%s with WithSilent panicked: %s", at, silent.Panic), f
+	case wantClass == EHard && silent.Class != EHard:
+		return violf("%s: the non-suppressible error (%s) must survive WithSilent, got %s", at, mr.Err.msg, silent), f
+	case wantClass != EHard && silent.Class != EOK:
+		return violf("%s with WithSilent returned %s: a domain/range rejection must be suppressible", at, silent), f
+	}
 	if wantClass != EOK {
 		return nil, f
 	}
